@@ -151,7 +151,7 @@ def gen_e2e(spec, sh):
         case['params']['d'] = rng.choice([300, 800, 1500])
         case['kind'] = 'e2e'
         case['gen'] = [spec['seed'], spec['shard'], i]
-        judge_e2e(case, spec['workdir'], sh)
+        core.isolated(judge_e2e, sh, case, spec['workdir'])
 
 
 def run_shard(spec):
